@@ -170,22 +170,64 @@ def judge(c, impl_line):
 
 
 def check(rep, tier, seed):
-    ob = C.coq_obligations("C03") if os.path.exists(os.path.join(C.COQ, "Props", "C03.v")) else None
+    ob = C.coq_obligations("C03")
     harness = C.build_harness("release")
     model = C.build_model()
     wd = C.workdir("C03")
     cases = gen_cases(seed, tier)
     impl = run_stream(harness, model, cases, wd)
     bad, dis = [], []
-    stats = {"legal": 0, "illegal": 0, "unframed": 0, "exp_ok": 0, "exp_err": 0}
+    stats = {"legal": 0, "illegal": 0, "unframed": 0, "expected_ok": 0, "expected_err": 0, "w<r": 0, "w>r": 0, "w=r": 0,
+             "embedded": 0}
+    errs = {}
     for c, il in zip(cases, impl):
         good, same = judge(c, il)
         in_scope = c["legal"] and (c["framed"] or c["wrap"] == "(named 0)")
         stats["legal" if c["legal"] else "illegal"] += 1
         stats["unframed"] += 0 if c["framed"] else 1
-        stats["exp_ok" if c["expected"].startswith("ok") else "exp_err"] += 1
-        if not same:
-            dis.append((f"hist {c['H']} {c['w']} {c['r']} {c['wrap']} {c['val']} {c['sfx']}", il, c["model_dec"]))
+        stats["expected_ok" if c["expected"].startswith("ok") else "expected_err"] += 1
+        stats["w<r" if c["w"] < c["r"] else "w>r" if c["w"] > c["r"] else "w=r"] += 1
+        stats["embedded"] += 0 if c["wrap"] == "(named 0)" else 1
+        if c["expected"].startswith("err"):
+            k = c["expected"].split("(")[0]
+            errs[k] = errs.get(k, 0) + 1
+        line = f"hist {c['H']} {c['w']} {c['r']} {c['wrap']} {c['val']} {c['sfx']}"
+        if not same and (c["framed"] or c["wrap"] == "(named 0)"):
+            dis.append((line, il, c["model_dec"]))
         if in_scope and not good:
-            bad.append((c, il))
-    return ob, cases, impl, bad, dis, stats
+            bad.append((c, line, il))
+    # static route: one history compiled version by version with the real derive macro (H1v0..H1v4)
+    from .. import catalogue as K
+    env = K.load()
+    ids = [K.index_of(env, f"H1v{i}") for i in range(5)]
+    rng = C.rng_for(seed, "C03s")
+    sc = []
+    per = 8 if tier == "quick" else 200
+    for w in range(5):
+        for r in range(5):
+            for v in K.gen_values(rng, env, ids[w], per):
+                sc.append({"cmd": "sx", "w": ids[w], "r": ids[r], "val": v, "sfx": rng.choice(["-", "00", "0102ff"])})
+    simpl, smod, hl = K.run_static(harness, model, env, sc, wd, "st")
+    sdis = [(l, a, b) for l, a, b in zip(hl, simpl, smod) if a != b]
+    C.proof_coverage(rep, ob, "C03")
+    lines = [f"hist {c['H']} {c['w']} {c['r']} {c['wrap']} {c['val']} {c['sfx']}" for c in cases]
+    rep.coverage.update({
+        "evaluations": len(cases) + len(sc), "distinct_nontrivial": len(set(lines)) + len(set(hl)),
+        "rule": "random histories (0-5 initial fields incl. optional and plain transient ones, up to 8 steps: FieldAdded "
+                "with default, FieldMadeOptional, FieldRemoved, FieldMadeTransient; 10% deliberately illegal), for up to 16 "
+                "(writer, reader) version pairs each and 2 values per pair, at top level, between sibling data "
+                "(u8, R, String) and in Vec<R>; the model computes decl_at for both versions and `expected` (layer V, no "
+                "bytes); the implementation encodes with the writer's declaration and decodes with the reader's (dynamic "
+                "route); its result must equal `expected` (value or error variant with field name) and, when framed, leave "
+                "exactly the suffix; plus 25 version pairs of a history compiled with the real derive macro (static route) "
+                "against the model's decoder; distinct = case lines",
+        "samples": [l[:400] for l in lines[:2] + lines[-1:]] + hl[:1],
+        "case_classes": stats, "expected_error_classes": errs,
+        "disagreements_checked": len(cases) + len(sc), "disagreements": len(dis) + len(sdis),
+    })
+    if bad:
+        c, line, il = bad[0]
+        rep.violation(f"version {c['w']} data read by version {c['r']}: expected {c['expected'][:80]}, got {il.split(' ; ')[-1][:80]}",
+                      {"kind": "case", "case": line, "writer_env": c["envW"], "reader_env": c["envR"],
+                       "expected": c["expected"], "implementation": il, "framed": c["framed"], "n_failing": len(bad)})
+    C.report_broken(rep, ob, dis + sdis, "hist (dynamic) / sx (static)", bool(bad))
